@@ -113,6 +113,8 @@ type rpcState struct {
 	idx  int
 	spec *RPC
 
+	reuseCli, reuseSrv *wrapperspb.BytesValue // RPC.ReuseMsg: the one message object each side receives into
+
 	ctx    context.Context
 	cancel context.CancelFunc
 	stream grpc.ClientStream
@@ -127,6 +129,7 @@ type rpcState struct {
 	trlTarget  metadata.MD
 	peerTarget peer.Peer
 	chanTarget grpctunnel.TunnelChannel
+	chanTarget2 grpctunnel.TunnelChannel
 
 	inv     *Invocation
 	hctx    context.Context
@@ -1144,13 +1147,16 @@ func (w *World) observeTunnels() {
 	w.mu.Lock()
 	ts := append([]*tunnelState(nil), w.tunnels...)
 	step := w.step
+	// a goroutine the schedule holds at a park point may hold the channel's lock (an application callback invoked under it,
+	// say): Err() would block the root, the only one who can release it. The channel is looked at again once nothing is parked.
+	parkedNow := len(w.parked) > 0
 	w.mu.Unlock()
 	for _, t := range ts {
 		w.mu.Lock()
 		tch := t.ch
 		doneStep, kind, carrier, serveRet := t.rec.DoneStep, t.rec.Kind, t.carrier, t.rec.ServeReturned
 		w.mu.Unlock()
-		if tch != nil && doneStep < 0 {
+		if tch != nil && doneStep < 0 && !parkedNow {
 			select {
 			case <-tch.Done():
 				err := tch.Err()
@@ -1258,10 +1264,16 @@ func (w *World) snapshot(phase string) *Snapshot {
 		}
 	}
 	ts := append([]*tunnelState(nil), w.tunnels...)
+	credsHeld := false // a goroutine held inside the credentials callback has the channel's lock: the table cannot be read now
+	for _, p := range w.parked {
+		if p.point == "cb.creds" {
+			credsHeld = true
+		}
+	}
 	w.mu.Unlock()
 	for _, t := range ts {
 		var ids []int64
-		if t.ch != nil {
+		if t.ch != nil && !credsHeld {
 			if got, ok := grpctunnel.VerifChannelStreamIDs(t.ch); ok {
 				ids = got
 				if ids == nil {
@@ -1504,9 +1516,17 @@ func respStreams(shape string) bool { return shape == "sstream" || shape == "bid
 type verifCreds struct {
 	c   *Creds
 	tag string
+	w   *World
 }
 
 func (v verifCreds) GetRequestMetadata(ctx context.Context, uri ...string) (map[string]string, error) {
+	if v.w != nil {
+		// fetching credentials is application code: it may take a while (a token refresh, say)
+		if v.w.free && v.c.SlowUs > 0 {
+			time.Sleep(time.Duration(v.c.SlowUs) * time.Microsecond)
+		}
+		v.w.cbYield("cb.creds")
+	}
 	if v.c.Fail {
 		return nil, status.Error(codes.Unauthenticated, "scripted credentials failure")
 	}
@@ -1526,6 +1546,9 @@ func (w *World) callCtx(r *rpcState) (context.Context, []grpc.CallOption) {
 	ctx := context.Background()
 	var cancel context.CancelFunc
 	switch {
+	case sp.NoCancelCtx && sp.Timeout == 0 && !sp.PreCancel:
+		// a context that can never be cancelled (context.Background(), perhaps with values): ctx.Done() is nil
+		cancel = func() {}
 	case sp.Timeout > 0 && sp.CtxCause:
 		// the application attaches its own causes: ctx.Err() is still DeadlineExceeded / Canceled, context.Cause(ctx) is not
 		w.addTimer(time.Now().Add(time.Duration(sp.Timeout) * time.Millisecond))
@@ -1557,12 +1580,14 @@ func (w *World) callCtx(r *rpcState) (context.Context, []grpc.CallOption) {
 			for _, v := range sp.GrpcTimeout {
 				md["grpc-timeout"] = append(md["grpc-timeout"], decStr(v))
 			}
+		} else if sp.GrpcTimeoutNoValues {
+			md["grpc-timeout"] = []string{} // the key is there, with no value at all
 		}
 		ctx = metadata.NewOutgoingContext(ctx, md)
 	}
 	var opts []grpc.CallOption
 	if sp.Creds != nil {
-		vc := verifCreds{c: sp.Creds}
+		vc := verifCreds{c: sp.Creds, w: w}
 		if sp.NoMD {
 			vc.tag = tag
 		}
@@ -1579,6 +1604,10 @@ func (w *World) callCtx(r *rpcState) (context.Context, []grpc.CallOption) {
 	}
 	if sp.ChanOpt {
 		opts = append(opts, grpctunnel.WithTunnelChannel(&r.chanTarget))
+		if sp.ChanOpt2 {
+			// a second option on the same call (application code plus an interceptor, say): both locations are filled
+			opts = append(opts, grpctunnel.WithTunnelChannel(&r.chanTarget2))
+		}
 	}
 	w.mu.Lock()
 	r.ctx = ctx
@@ -1856,6 +1885,9 @@ func (w *World) recordCallIdentity(r *rpcState, rec *OpRec, ctx context.Context)
 	}
 	if r.spec.ChanOpt {
 		rec.Extra["opt_chan"] = w.chanName(r.chanTarget)
+		if r.spec.ChanOpt2 {
+			rec.Extra["opt_chan2"] = w.chanName(r.chanTarget2)
+		}
 	}
 	if r.spec.PeerOpt {
 		if r.peerTarget.Addr != nil {
@@ -1902,9 +1934,17 @@ func (w *World) opSend(r *rpcState, i int, rec *OpRec) {
 }
 
 func (w *World) opRecv(r *rpcState, i int, rec *OpRec) {
-	var m wrapperspb.BytesValue
+	m := &wrapperspb.BytesValue{}
+	if r.spec.ReuseMsg {
+		// one message object for every receive, as an allocation-conscious application does: whatever the previous message
+		// left in it must be gone
+		if r.reuseCli == nil {
+			r.reuseCli = &wrapperspb.BytesValue{Value: []byte("left over from before the first receive")}
+		}
+		m = r.reuseCli
+	}
 	w.appCall(rec, func() {
-		err := r.stream.RecvMsg(&m)
+		err := r.stream.RecvMsg(m)
 		setErr(rec, err)
 		if err == nil {
 			obs := classifyPayload(m.Value, r.idx, 'p', i, r.spec.Resp)
@@ -2311,6 +2351,17 @@ func (w *World) opHandlerMD(ctx context.Context, ss grpc.ServerStream, op MDOp, 
 			err = grpc.SetTrailer(ctx, md)
 		}
 	}
+	// the map stays the application's: it goes on to scribble on it (a scratch map re-used for the next call, say), which
+	// must not show in what the caller reads
+	for k, v := range md {
+		for i := range v {
+			v[i] = "scribbled-after-the-call"
+		}
+		_ = k
+	}
+	if md != nil {
+		md["scribbled-after-the-call"] = []string{"1"}
+	}
 	setErr(rec, err)
 }
 
@@ -2359,8 +2410,14 @@ func streamHandlerFor(shape string) grpc.StreamHandler {
 				}
 				i := r.hRecvN
 				return &opSpec{kind: "recv", idx: i, run: func(rec *OpRec) {
-					var m wrapperspb.BytesValue
-					err := ss.RecvMsg(&m)
+					m := &wrapperspb.BytesValue{}
+					if sp.ReuseMsg {
+						if r.reuseSrv == nil {
+							r.reuseSrv = &wrapperspb.BytesValue{Value: []byte("left over from before the first receive")}
+						}
+						m = r.reuseSrv
+					}
+					err := ss.RecvMsg(m)
 					setErr(rec, err)
 					if err == nil {
 						obs := classifyPayload(m.Value, r.idx, 'q', i, sp.Req)
